@@ -3,6 +3,7 @@
    (Properties/C13.v: every trade / mint / burn leaves both reserves positive); stakes: C17/C18
    arithmetic; the whole node is watched by the sign monitor on every export. *)
 From Minter Require Import Base Ledger LedgerFacts LedgerTx LedgerProps LedgerCons LedgerReg LedgerNonneg LedgerExample.
+From Minter Require CoinSupply CoinSupplyFacts Consts.
 From Coq Require Import ZArith List.
 Import ListNotations.
 Open Scope Z_scope.
@@ -34,5 +35,34 @@ Proof.
   split; [repeat constructor; cbn; vm_compute; try discriminate; auto|]. vm_compute. repeat split.
 Qed.
 
+(* bancor coins: along any sequence of conversions (coins bought: BuyCoin, SellCoin / SellAllCoin into the coin; coins
+   sold or spent on commissions), with the amounts formula.go computes as arbitrary non-negative inputs, the volume
+   stays within [0, max supply], the maximum supply itself never changes, and the reserve stays at or above the
+   minimum reserve; a purchase that would exceed the maximum supply is refused with code 112 whatever its cost *)
+Theorem C02_bancor_volume_within_max_supply : forall ops c,
+  CoinSupplyFacts.binv c -> CoinSupplyFacts.bops_ok c ops ->
+  CoinSupplyFacts.binv (CoinSupply.brun c ops) /\ CoinSupply.b_max (CoinSupply.brun c ops) = CoinSupply.b_max c.
+Proof. exact CoinSupplyFacts.brun_inv. Qed.
+
+Theorem C02_purchase_above_cap_refused : forall c minted deposit,
+  CoinSupply.b_max c < CoinSupply.b_vol c + minted ->
+  CoinSupply.bstep c (CoinSupply.BMint minted deposit) = (c, CoinSupply.cCoinSupplyOverflow).
+Proof. exact CoinSupplyFacts.mint_above_cap_refused. Qed.
+
+(* the literals of the model are the ones of the source (regenerated on every run) *)
+Example C02_bancor_constants :
+  CoinSupply.min_coin_reserve = Consts.min_coin_reserve_src /\ CoinSupply.cCoinSupplyOverflow = Consts.code_coin_supply_overflow /\
+  CoinSupply.cCoinReserveUnderflow = Consts.code_coin_reserve_underflow.
+Proof. vm_compute. repeat split. Qed.
+
+Example C02_bancor_example :
+  let c := {| CoinSupply.b_vol := 1000000; CoinSupply.b_res := CoinSupply.min_coin_reserve; CoinSupply.b_max := 1000100 |} in
+  (* 200 coins cost about 2 base coins, but only 100 more may exist *)
+  snd (CoinSupply.bstep c (CoinSupply.BMint 200 2)) = 112 /\ snd (CoinSupply.bstep c (CoinSupply.BMint 100 1)) = 0 /\
+  CoinSupply.b_vol (CoinSupply.brun c [CoinSupply.BMint 100 1; CoinSupply.BMint 1 1; CoinSupply.BBurn 50 1]) = 1000050.
+Proof. vm_compute. repeat split. Qed.
+
 Print Assumptions C02_nothing_negative.
 Print Assumptions C02_transaction_keeps_balances_nonneg.
+Print Assumptions C02_bancor_volume_within_max_supply.
+Print Assumptions C02_purchase_above_cap_refused.
